@@ -134,6 +134,23 @@ def make_queries(rng, spec):
     qs.append(("json", lambda g: fggs.fgg_to_json(g)))
     return qs
 
+def rebuild(g, rg):
+    """an independent FGG with the same content, built through the constructors (not FGG.copy /
+    deepcopy, which would also copy any cache hanging off the factor objects)"""
+    import fggs
+    h = fggs.FGG(g.start)
+    for nl in g.node_labels(): h.add_node_label(nl)
+    for el in g.edge_labels(): h.add_edge_label(el)
+    for r in g.all_rules(): h.add_rule(r.copy())
+    for name, d in g.domains.items():
+        h.domains[name] = fggs.FiniteDomain(list(d.values)) if hasattr(d, "values") else fggs.RangeDomain(d.size())
+    for name, f in g.factors.items():
+        w = f.weights.detach().clone() if hasattr(f.weights, "detach") else f.weights.clone()
+        nf = fggs.FiniteFactor([h.domains[nl.name] for nl in g.get_edge_label(name).type], w)
+        if rg: nf.weights.requires_grad_()
+        h.factors[name] = nf
+    return h
+
 def call(q, g):
     with warnings.catch_warnings():
         warnings.simplefilter("ignore")
@@ -226,9 +243,7 @@ def run(tier, seed):
             if forced: continue
             hist[name.split("[")[0]] = hist.get(name.split("[")[0], 0) + 1
             called.append((name, q))
-            fresh = g.copy()
-            if rg:
-                for f in fresh.factors.values(): f.weights.requires_grad_()
+            fresh = rebuild(g, rg)
             ref = result_digest(name, call(q, fresh))
             before = [h64(p) for p in hrg_snap(g)]
             user = user_storages(g)
